@@ -148,8 +148,46 @@ def _canon_local(B, l, depth, at=None):
     d = B.single_def(l)
     if d is None and at is not None:
         d = B.reaching_def(l, at)        # several definitions, one of which reaches the place the value is read at
+    if d is None and at is not None and depth < 12 and B.b.get('n_inlined'):
+        # several definitions reach, but they are copies of one computation (the duplicated blocks of jump threading): the value is
+        # "l as it is here", annotated with the shape all its definitions share so that what it derives from stays recognisable
+        ds = B.reaching_defs(l, at)
+        if 2 <= len(ds) <= 6:
+            shapes = {_erase(_shape(B, _canon_def(B, l, dd, depth + 8), 0)) for dd in ds}
+            if len(shapes) == 1:
+                sh = next(iter(shapes))
+                if sh != ('local', 0):
+                    return ('phi', l, sh)       # (named like a call site: the value of l as defined by these copies)
     if d is None:
         return ('local', l)
+    return _canon_def(B, l, d, depth)
+
+
+def _shape(B, c, depth):
+    """canon with locals that hold a one-field literal (Ok(x), Some(x), Ready(x)) spelled out - for comparing and naming shapes only"""
+    if not isinstance(c, tuple) or depth > 6:
+        return c
+    if len(c) >= 2 and c[0] == 'local' and isinstance(c[1], int):
+        d_ = B.single_def(c[1])
+        if d_ and d_[0] == 's' and d_[3]['rv']['k'] == 'agg' and d_[3]['rv'].get('ak') == 'adt' and len(d_[3]['rv'].get('ops') or []) == 1:
+            return ('lit', d_[3]['rv'].get('var'), _shape(B, canon(B, d_[3]['rv']['ops'][0], 20, (d_[1], d_[2])), depth + 1))
+        return c
+    return tuple(_shape(B, x, depth + 1) if isinstance(x, tuple) else x for x in c)
+
+
+def _erase(c):
+    if isinstance(c, tuple):
+        if len(c) == 3 and c[0] == 'call':
+            return ('call', c[1], 0)
+        if len(c) >= 2 and c[0] == 'local':
+            return ('local', 0)
+        if c and c[0] == 'phi':
+            return _erase(c[2])
+        return tuple(_erase(x) if isinstance(x, tuple) else (0 if (c[0] == 'remaining' and isinstance(x, int)) else x) for x in c)
+    return c
+
+
+def _canon_def(B, l, d, depth):
     kind, bb, idx, node = d
     at2 = (bb, idx)
     if kind == 's':
